@@ -204,3 +204,17 @@ package certs
 //@     before[the_collected_entries_are_put_in_canonical_order] arg(0) == pt
 //@   at return 0
 //@     before[returns_the_sorted_table] arg(0) == pt && dominatedBy(Sort, 1)
+
+// The commitment to a power table: the CID of the CBOR encoding of exactly this table, serialised into a buffer of its
+// own (nothing left over from an earlier, possibly failed, serialisation can enter the hash).
+//@ func MakePowerTableCID
+//@   property C04 C03 C09 C17 C15
+//@   modifies auto
+//@   maypanic
+//@   at MarshalCBOR 1
+//@     before[the_table_itself_is_serialised] *arg(0) == pt
+//@     before[into_a_buffer_of_its_own] arg(1) == &buf && !allocated(&buf)
+//@   at MakeCid 1
+//@     before[the_cid_is_taken_over_exactly_that_serialisation] res(MarshalCBOR, 1) == nil && arg(0) == res(Bytes, 1) && argOf(Bytes, 1, 0) == argOf(MarshalCBOR, 1, 1)
+//@   at return 2
+//@     before[the_commitment_is_that_cid] arg(1) == nil && arg(0) == res(MakeCid, 1)
